@@ -71,6 +71,7 @@ func rwDirected(rng *rand.Rand) czCase {
 	}
 	alt := strings.Join(bs, "|")
 	var p string
+	nested := false
 	switch rng.Intn(12) {
 	case 0:
 		p = alt
@@ -91,12 +92,19 @@ func rwDirected(rng *rand.Rand) czCase {
 	case 9:
 		p = "(?:" + alt + ")" + pick([]string{"*", "+", "?", "{2}", "*?"}) + pick(tail)
 	case 10:
+		// a nested alternation is flattened into the outer one in the un-rewritten tree, while the engine
+		// factors the inner one first: the un-rewritten tree does not determine the result (counted, lenient)
 		p = "(?>(?:" + alt + ")|" + pick(lits) + ")"
+		nested = true
 	default:
 		p = "(?(" + pick([]string{"a", "?=a", "?!b"}) + ")" + alt + ")"
 	}
 	opts := []regexp2.RegexOptions{0, 0, 0, 0, regexp2.Multiline, regexp2.RE2, regexp2.IgnoreCase, regexp2.Singleline, regexp2.RightToLeft, regexp2.ExplicitCapture}
-	return czCase{Pattern: p, Opts: int32(opts[rng.Intn(len(opts))]), CodeGen: rng.Intn(4) == 0, Seed: rng.Int63(), Source: "rw-directed"}
+	src := "rw-directed"
+	if nested {
+		src = "rw-nested"
+	}
+	return czCase{Pattern: p, Opts: int32(opts[rng.Intn(len(opts))]), CodeGen: rng.Intn(4) == 0, Seed: rng.Int63(), Source: src}
 }
 
 func (z *rwGen) next(rng *rand.Rand, i int) czCase {
